@@ -2,6 +2,7 @@
 //! It uses no FFI oracle, so Miri can interpret it; the sanitizer is the monitor here.
 //!   scv_san c01 <corpus>            hostile inputs, single thread
 //!   scv_san c16 <corpus> <threads>  sequential baseline, then concurrent replay with comparison
+//!   scv_san work <corpus> <reps>    every call `reps` times (instruction counting under cachegrind)
 use scv::json::J;
 use scv::sut;
 use scv::val::{Ev, Outcome, Val};
@@ -82,8 +83,21 @@ fn main() {
                 std::process::exit(1);
             }
         }
+        "work" => {
+            // every call of the corpus `reps` times, nothing else: the instruction counter of the tool
+            // this runs under (cachegrind) is the monitor; reps = 0 gives the cost of start-up and loading
+            let reps: usize = args.get(2).and_then(|s| s.parse().ok()).unwrap_or(1);
+            let mut done = 0usize;
+            for c in &calls {
+                for _ in 0..reps {
+                    let _ = run(c, 0);
+                    done += 1;
+                }
+            }
+            println!("SAN-DONE mode=work calls={}", done);
+        }
         _ => {
-            eprintln!("usage: scv_san c01|c16 <corpus> [threads]");
+            eprintln!("usage: scv_san c01|c16|work <corpus> [threads|reps]");
             std::process::exit(2);
         }
     }
